@@ -367,3 +367,65 @@ def c12(ctx):
     ctx.vh(["g-lookup", "-dump", r["dump"], "-expect", str(r["distinct"]), "-property", "C12"])
     os.remove(r["dump"])
     ctx.exhaustive = True
+
+
+def fuzz_run(ctx, args, prop_id, timeout=7200):
+    """Run a fuzz driver; if the harness process itself dies (fatal error: stack overflow, runtime throw ...)
+    re-run it single-threaded with the current input written to disk before every case, and report that input."""
+    rep = ctx.vh(args, timeout=timeout, allow_fail=True)
+    if not rep.get("failed"):
+        return rep
+    log("[fuzz] harness process died (rc=%s); re-running single-threaded to identify the input" % rep.get("rc"))
+    cd = ctx.dir("crash")
+    rep2 = ctx.vh(args + ["-crashdir", cd], timeout=timeout, allow_fail=True, env={"GOMAXPROCS": "1"})
+    cur = os.path.join(cd, "current.bin")
+    if rep2.get("failed") and os.path.exists(cur):
+        data = open(cur, "rb").read()
+        head = (rep2.get("stderr_head") or "")[:1500]
+        ctx.mismatches.append({"property": prop_id, "sig": "process-crash:" + data.hex()[:400], "input": data.hex(),
+                               "want": "an error or a traversable result", "got": "the process died: " + head.split("\n")[0][:200],
+                               "detail": head})
+        return rep2
+    if rep2.get("failed"):
+        raise Infra("fuzz driver died without leaving the current input:\n%s" % (rep2.get("stderr_head") or "")[:3000])
+    raise Infra("fuzz driver died in parallel mode but not single-threaded:\n%s" % (rep.get("stderr_head") or "")[:3000])
+
+
+@prop("C11")
+def c11(ctx):
+    ctx.rule = ("M: Serializer.tla -- DenoteTape(Deser(Ser(tape))) = docs, WellFormed and canonical NOP runs for every tape reachable in Edit.tla "
+                "(parse + <= 2 edits/deletions); G: for every such state the real blob is decoded (any compression mode) and its TAG STREAM "
+                "and VALUE STREAM are compared exactly with Ser(tape) (string offsets by content), then deserialized by a second, reused "
+                "Serializer in each of the 4x4 mode pairs into fresh and reused destinations and read back through every API; the same "
+                "blobs are deserialized by a binary built with -tags noasm and the marshalled document compared with the spec text; "
+                "V: by-construction tapes crossing the 64 Ki tag / 64 KiB value flush blocks and the 16 K string hash table. "
+                "Non-trivial = state with an edit history or a tape longer than 6 words.")
+    q = quick(ctx)
+    blobs = os.path.join(ctx.dir("blobs"), "blobs.txt")
+    r = ctx.tlc("MC_Edit", cfg="MC_Edit_%s.cfg" % ("del_q" if q else "del_t"), dump="states", label="edited tapes", timeout=3000)
+    ctx.vh(["g-edit", "-dump", r["dump"], "-property", "C11", "-expect", str(r["distinct"]), "-sermodes", "2" if q else "4", "-blobs", blobs], timeout=7200)
+    os.remove(r["dump"])
+    r2 = ctx.tlc("MC_Edit", cfg="MC_Edit_%s.cfg" % ("parse_q" if q else "parse_t"), dump="states", label="parsed tapes", timeout=3000)
+    ctx.vh(["g-edit", "-dump", r2["dump"], "-property", "C11", "-expect", str(r2["distinct"]), "-sermodes", "4"], timeout=7200)
+    os.remove(r2["dump"])
+    ctx.vh(["deser-check", "-in", blobs, "-property", "C11"], tags="verif,noasm")
+    ctx.vh(["v-serbig", "-seed", str(ctx.seed), "-scale", "1" if q else "3", "-property", "C11"], timeout=3000)
+    ctx.exhaustive = True
+
+
+@prop("C19")
+def c19(ctx):
+    ctx.rule = ("M: SerFuzz.tla enumerates every tag/value stream of length <= L over all tag bytes (plus unknown ones) and hostile values "
+                "(0, 1, n-1, n, n+1, negative, 2^56-1, 2^63, 2^64-1, arbitrary tag words behind the flagged-float tag) for every declared tape "
+                "size 0..4, extending only prefixes the specified decoder has not rejected; invariant: whatever the specified decoder "
+                "accepts is Safe (all pointers in bounds and forward, end tags intact, NOP skips >= 1). G: every stream (also with its "
+                "value stream truncated) is framed as a blob (uncompressed, S2, zstd) and fed to the real Deserialize under recover and a "
+                "watchdog; on success every traversal, lookup, bulk accessor and marshal call is executed. V: every truncation, single-bit "
+                "flip, byte substitution and splices of valid blobs in all four modes (declared sizes > 64 MiB skipped). "
+                "Non-trivial = the real decoder accepted the stream / the mutation left the framing parseable.")
+    q = quick(ctx)
+    r = ctx.tlc("SerFuzz", consts={"MaxLen": 3 if q else 4, "MaxTape": 4 if q else 5}, dump="states", label="adversarial streams", timeout=3000)
+    fuzz_run(ctx, ["g-serfuzz", "-dump", r["dump"], "-expect", str(r["distinct"]), "-property", "C19"], "C19")
+    os.remove(r["dump"])
+    fuzz_run(ctx, ["v-serfuzz", "-seed", str(ctx.seed), "-docs", "10" if q else "60", "-property", "C19"], "C19")
+    ctx.exhaustive = True
